@@ -127,6 +127,28 @@ def run(ctx):
                 H.violation("monkeytype.type_checking_imports_transformer:MoveImportsToTypeCheckingBlockVisitor", kind, "confinement: " + "; ".join(problems[:3]), {"source": sn, "stub": tn}, {"result": out[:900], "problems": problems})
             else:
                 H.ok(key, sample={"source": sn, "stub": tn, "result_head": out[:200]})
+        # ---- T-CST validation: the shapes the gatherer theory assumes, on the real GatherImportsVisitor / ImportItem
+        import libcst
+        from libcst.codemod import CodemodContext
+        from libcst.codemod.visitors import GatherImportsVisitor, ImportItem
+        for sn, src in list(SOURCES.items()) + [("stub:" + k_, v_) for k_, v_ in STUBS.items()]:
+            views = []
+            for _ in range(2):
+                g = GatherImportsVisitor(CodemodContext())
+                libcst.parse_module(src).visit(g)
+                views.append((dict(g.symbol_mapping), set(g.module_imports), dict(g.module_aliases), {k_: set(v_) for k_, v_ in g.object_mapping.items()}, {k_: list(v_) for k_, v_ in g.alias_mapping.items()}))
+            sym, mods, mal, objs, als = views[0]
+            if views[0] != views[1]:
+                H.theory_failure("gatherer-deterministic", "two gatherers visiting the same module hold different views", {"source": sn})
+            if not (all(isinstance(k_, str) and isinstance(v_, ImportItem) for k_, v_ in sym.items()) and all(isinstance(m_, str) for m_ in mods)
+                    and all(isinstance(k_, str) and isinstance(v_, str) for k_, v_ in mal.items()) and all(isinstance(k_, str) and all(isinstance(o_, str) for o_ in v_) for k_, v_ in objs.items())):
+                H.theory_failure("gatherer-views", "a view of GatherImportsVisitor has another shape than the theory assumes", {"source": sn})
+            if not all(isinstance(pr, tuple) and len(pr) == 2 for v_ in als.values() for pr in v_):
+                H.theory_failure("alias-pairs", "alias_mapping holds something else than (name, alias) pairs", {"source": sn})
+        a_, b_ = ImportItem("m", obj_name="o", alias="a"), ImportItem("m", obj_name="o", alias="a")
+        if not (a_ == b_ and hash(a_) == hash(b_) and a_ != ImportItem("m", obj_name="o") and a_ != ImportItem("m", alias="a") and a_ != ImportItem("n", obj_name="o", alias="a")
+                and (a_.module_name, a_.obj_name, a_.alias) == ("m", "o", "a") and ImportItem("m").obj_name is None and ImportItem("m").alias is None):
+            H.theory_failure("mk-item-fields", "ImportItem is not a value determined by (module_name, obj_name, alias)", {})
     finally:
         sys.path.remove(tmp)
         for n in ("shapes16", "other16"):
